@@ -112,13 +112,17 @@ SRC_RAW = {
     "C01": ["SrcRunning"],
     "C08": ["SrcObserve", "SrcObs", "SrcObsStep"],
     "C09": ["SrcLayout", "SrcObserve", "SrcObs"],
+    "C11": ["SrcAct"],
+    "C12": ["SrcAct"],
 }
 for _pid, _mods in SRC_RAW.items():
     PROPS[_pid]["src"] = PROPS[_pid].get("src", []) + _mods
     PROPS[_pid].setdefault("src_shared", [])
     PROPS[_pid].setdefault("trusted_extra", []).append(
-        "source translator harness/pysrc_obs.py (raw-array world): NumPy primitives of Model/PyRtObs.lean (zeros, indexing, "
-        "slice read / assignment, argmax, shape, dict lookup and key iteration) and the keyword -> Mask field table KW_FIELD")
+        "source translators harness/pysrc_obs.py (raw-array world: NumPy primitives of Model/PyRtObs.lean - zeros, indexing, "
+        "slice read / assignment, argmax, shape, dict lookup and key iteration - and the keyword -> Mask field table KW_FIELD) "
+        "and harness/pysrc_act.py (action-space world: Model/PyRtAct.lean - fresh action object, dictionaries as association "
+        "lists, keyword dictionaries; names of OS / services / processes are their positions)")
 
 
 def evaluations(r):
